@@ -122,6 +122,57 @@ def _cast_arity(fn: ast.FunctionDef) -> int:
 	raise Unrecognised('on_func_call: `if len(arguments) != N: raise Errors.OperationNotAllowed` not found')
 
 
+# the two regular expressions the Lean test `joinsEscape` was proved (C17.join_decodes / catSafe_decodes) and correspondence-checked
+# (stream `unescape`) against; a change of either in the source breaks the tie until the model and its proofs are revisited
+JOINS_LEFT_EXPECTED = r'(?<!\\)(?:\\\\)*\\[0-7]{1,2}$'
+JOINS_RIGHT_EXPECTED = r'[0-7]'
+JOIN_ASSERT_EXPECTED = 'self._allow_string(left) and self._allow_string(right) and (not self._joins_escape(left, right))'
+
+
+def _joins_patterns(fn: ast.FunctionDef) -> tuple[str, str]:
+	"""`return re.search(<p1>, left[1:-1]) is not None and re.match(<p2>, right[1:-1]) is not None` -> (p1, p2)."""
+	body = [st for st in fn.body if not (isinstance(st, ast.Expr) and isinstance(st.value, ast.Constant))]
+	if len(body) != 1 or not isinstance(body[0], ast.Return) or not isinstance(body[0].value, ast.BoolOp) or not isinstance(body[0].value.op, ast.And) or len(body[0].value.values) != 2:
+		raise Unrecognised('_joins_escape: body is not `return <test> and <test>`')
+	out: list[str] = []
+	for v, (func, arg) in zip(body[0].value.values, (('re.search', 'left[1:-1]'), ('re.match', 'right[1:-1]'))):
+		if not (isinstance(v, ast.Compare) and len(v.ops) == 1 and isinstance(v.ops[0], ast.IsNot) and isinstance(v.comparators[0], ast.Constant) and v.comparators[0].value is None
+				and isinstance(v.left, ast.Call) and ast.unparse(v.left.func) == func and len(v.left.args) == 2 and not v.left.keywords
+				and isinstance(v.left.args[0], ast.Constant) and isinstance(v.left.args[0].value, str) and ast.unparse(v.left.args[1]) == arg):
+			raise Unrecognised(f'_joins_escape: operand is not `{func}(<pattern>, {arg}) is not None`')
+		out.append(v.left.args[0].value)
+	if out[0] != JOINS_LEFT_EXPECTED or out[1] != JOINS_RIGHT_EXPECTED:
+		raise Unrecognised(f'_joins_escape: the patterns changed ({out[0]!r}, {out[1]!r}); joinsEscape was proved against ({JOINS_LEFT_EXPECTED!r}, {JOINS_RIGHT_EXPECTED!r})')
+	return out[0], out[1]
+
+
+def _join_assert(fn: ast.FunctionDef) -> str:
+	"""The `assert` that guards `left = self._cat(left, right)` in `_op_bin_each`."""
+	for n in ast.walk(fn):
+		if isinstance(n, (ast.If,)):
+			for branch in (n.body, n.orelse):
+				for i, st in enumerate(branch[:-1]):
+					nxt = branch[i + 1]
+					if isinstance(st, ast.Assert) and isinstance(nxt, ast.Assign) and ast.unparse(nxt.value) == 'self._cat(left, right)':
+						text = ast.unparse(st.test)
+						if text != JOIN_ASSERT_EXPECTED:
+							raise Unrecognised(f'_op_bin_each: the guard of the string join changed: {text!r}')
+						return text
+	raise Unrecognised('_op_bin_each: `assert …` followed by `left = self._cat(left, right)` not found')
+
+
+def read_joins_patterns() -> tuple[str, str]:
+	"""Only the two patterns of `_joins_escape` (for the `unescape` stream); raises like `read_tables` on another shape."""
+	with open(os.path.join(REPO, SOURCE), encoding='utf-8') as f:
+		tree = ast.parse(f.read())
+	for cls in tree.body:
+		if isinstance(cls, ast.ClassDef) and cls.name == 'LiteralEvaluator':
+			for n in cls.body:
+				if isinstance(n, ast.FunctionDef) and n.name == '_joins_escape':
+					return _joins_patterns(n)
+	raise Unrecognised('LiteralEvaluator._joins_escape not found')
+
+
 def read_tables() -> dict[str, Any]:
 	from rogw.tranp.implements.transpiler.evaluator import LiteralEvaluator
 	with open(os.path.join(REPO, SOURCE), encoding='utf-8') as f:
@@ -130,7 +181,7 @@ def read_tables() -> dict[str, Any]:
 	if cls is None:
 		raise Unrecognised('class LiteralEvaluator not found')
 	fns = {n.name: n for n in cls.body if isinstance(n, ast.FunctionDef)}
-	for need in ('_calc', '_bitwise', '_allow_string', 'on_func_call', '_op_bin_each', 'on_terminal', 'on_factor'):
+	for need in ('_calc', '_bitwise', '_allow_string', '_joins_escape', '_cat', 'on_func_call', '_op_bin_each', 'on_terminal', 'on_factor'):
 		if need not in fns:
 			raise Unrecognised(f'method {need} not found')
 	for name in ('ArthmeticOps', 'BitwiseOps', 'AllowOps'):
@@ -149,6 +200,8 @@ def read_tables() -> dict[str, Any]:
 		'long_quotes': _str_list(fns['_allow_string'], 'long_quotes', 3),
 		'long_quote_min_len': _long_quote_test(fns['_allow_string']),
 		'cast_arity': _cast_arity(fns['on_func_call']),
+		'joins_patterns': list(_joins_patterns(fns['_joins_escape'])),
+		'join_assert': _join_assert(fns['_op_bin_each']),
 		'handlers': sorted(n for n in fns if n.startswith('on_')),
 	}
 
@@ -202,6 +255,12 @@ def longQuoteMinLen : Nat := {t['long_quote_min_len']}
 /-- `on_func_call`: `if len(arguments) != castArity: raise Errors.OperationNotAllowed` -/
 def castArity : Nat := {t['cast_arity']}
 
+/-- `_joins_escape`: `re.search(joinsLeftPattern, left[1:-1]) is not None and re.match(joinsRightPattern, right[1:-1]) is not None`.
+    The translator refuses any other pair: the model's `joinsEscape` (a decoder state, not a regex) is proved and
+    correspondence-checked against exactly these two. -/
+def joinsLeftPattern : List Char := {_lean_str(t['joins_patterns'][0])}
+def joinsRightPattern : List Char := {_lean_str(t['joins_patterns'][1])}
+
 /-- every `on_*` handler the class registers -/
 def handlers : List (List Char) := {strs(t['handlers'])}
 
@@ -215,7 +274,7 @@ def generate() -> list[dict[str, Any]]:
 	return [{
 		'file': os.path.relpath(TARGET, os.path.dirname(GENERATED_DIR)),
 		'source': SOURCE,
-		'entries': len(t['arithmetic']) + len(t['bitwise']) + len(t['allow']) + len(t['calc']) + len(t['bit']) + len(t['chain_handlers']) + len(t['casts']) + len(t['quotes']) + len(t['long_quotes']) + 2 + len(t['handlers']),
+		'entries': len(t['arithmetic']) + len(t['bitwise']) + len(t['allow']) + len(t['calc']) + len(t['bit']) + len(t['chain_handlers']) + len(t['casts']) + len(t['quotes']) + len(t['long_quotes']) + 2 + 3 + len(t['handlers']),
 		'changed': changed,
 		'tables': {k: v for k, v in t.items()},
 	}]
